@@ -5,8 +5,16 @@
 use super::*;
 use rten_tensor::Layout;
 
+/// Stub for `alloc::fmt::format` (error messages built with `format!`): the
+/// formatting machinery is not the subject and costs CBMC 10+ minutes.
+/// Listed in the evidence as an environment stub.
+fn fmt_stub(_args: std::fmt::Arguments<'_>) -> String {
+    String::new()
+}
+
 #[kani::proof]
 #[kani::unwind(12)]
+#[kani::stub(alloc::fmt::format, fmt_stub)]
 fn c05_q_onnx_tensor_from_elements_rank2() {
     let n: usize = kani::any();
     kani::assume(n <= 4);
@@ -35,6 +43,7 @@ fn c05_q_onnx_tensor_from_elements_rank2() {
 
 #[kani::proof]
 #[kani::unwind(12)]
+#[kani::stub(alloc::fmt::format, fmt_stub)]
 fn c05_q_onnx_tensor_from_bytes_rank2() {
     let n: usize = kani::any();
     kani::assume(n <= 8);
